@@ -5,7 +5,7 @@ package flows
 
 // ---- last-block clamp (C17)
 
-//@ func (f *MaxL2BlockNumberLimiter) AdaptCertificate
+//@ func (f *MaxL2BlockNumberLimiter) AdaptCertificate (f, buildParams)
 //@   props C17
 //@   requires f != nil
 //@   requires buildParams != nil ==> buildParams.FromBlock <= buildParams.ToBlock
@@ -26,7 +26,7 @@ package flows
 
 // ---- size limit (C17): shrink from the end, one block at a time
 
-//@ func (f *baseFlow) limitCertSize
+//@ func (f *baseFlow) limitCertSize (f, fullCert)
 //@   props C17
 //@   requires f != nil && fullCert != nil
 //@   requires fullCert.FromBlock <= fullCert.ToBlock && fullCert.ToBlock - fullCert.FromBlock + 1 < 9223372036854775808
@@ -62,7 +62,7 @@ package flows
 //@ interface github.com/agglayer/aggkit/aggsender/types.LERQuerier.GetLastLocalExitRoot (self)
 //@   modifies nothing
 
-//@ func (f *baseFlow) getLastSentBlockAndRetryCount
+//@ func (f *baseFlow) getLastSentBlockAndRetryCount (f, lastSentCertificateInfo)
 //@   props C02
 //@   requires f != nil
 //@   requires lastSentCertificateInfo != nil ==> lastSentCertificateInfo.RetryCount < 9223372036854775807
@@ -70,7 +70,7 @@ package flows
 //@   ensures[after-last-block] (lastSentCertificateInfo != nil && lastSentCertificateInfo.Status != agglayertypes.InError) ==> result0 == lastSentCertificateInfo.ToBlock && result1 == 0
 //@   ensures[retry-reuses-first-block] (lastSentCertificateInfo != nil && lastSentCertificateInfo.Status == agglayertypes.InError && lastSentCertificateInfo.FromBlock > 0) ==> result0 + 1 == lastSentCertificateInfo.FromBlock && result1 == lastSentCertificateInfo.RetryCount + 1
 
-//@ func (f *baseFlow) getNextHeightAndPreviousLER
+//@ func (f *baseFlow) getNextHeightAndPreviousLER (f, lastSentCertificateInfo)
 //@   props C02
 //@   requires f != nil && f.lerQuerier != nil && f.storage != nil
 //@   requires lastSentCertificateInfo != nil ==> lastSentCertificateInfo.Height < 18446744073709551615
@@ -81,19 +81,19 @@ package flows
 //@   ensures[replace-ler-from-settled] (lastSentCertificateInfo != nil && lastSentCertificateInfo.Status == agglayertypes.InError && lastSentCertificateInfo.PreviousLocalExitRoot == nil && lastSentCertificateInfo.Height > 0 && result2 == nil) ==> certPresent[lastSentCertificateInfo.Height - 1] && certRow[lastSentCertificateInfo.Height - 1].Status == agglayertypes.Settled && result1 == certRow[lastSentCertificateInfo.Height - 1].NewLocalExitRoot
 //@   ensures[undecided-refused] (lastSentCertificateInfo != nil && lastSentCertificateInfo.Status != agglayertypes.Settled && lastSentCertificateInfo.Status != agglayertypes.InError) ==> result2 != nil
 
-//@ func (f *baseFlow) verifyRetryCertStartingBlock
+//@ func (f *baseFlow) verifyRetryCertStartingBlock (f, buildParams)
 //@   props C02
 //@   requires buildParams != nil
 //@   ensures[retry-first-block] result == nil ==> ((buildParams.RetryCount > 0 && buildParams.LastSentCertificate != nil) ==> buildParams.FromBlock == buildParams.LastSentCertificate.FromBlock)
 
 // ---- bridge exits of a certificate (C03): same number, same order, every field copied, metadata replaced by its hash
 
-//@ func convertBridgeMetadata
+//@ func convertBridgeMetadata (metadata)
 //@   props C03
 //@   ensures[empty] len(metadata) == 0 ==> result == nil
 //@   ensures[hashed] len(metadata) > 0 ==> len(result) == 32 && off(result) == 0 && seq(result) == hb(keccak(catB(emptyB(), bytesOf(seq(metadata), len(metadata)))))
 
-//@ func (f *baseFlow) getBridgeExits
+//@ func (f *baseFlow) getBridgeExits (f, bridges)
 //@   props C03
 //@   ensures[same-length] len(result) == len(bridges)
 //@   ensures[same-order-same-fields] forall(k, 0, len(bridges), result[k] != nil && result[k].TokenInfo != nil && result[k].LeafType == bridges[k].LeafType && result[k].TokenInfo.OriginNetwork == bridges[k].OriginNetwork && result[k].TokenInfo.OriginTokenAddress == bridges[k].OriginAddress && result[k].DestinationNetwork == bridges[k].DestinationNetwork && result[k].DestinationAddress == bridges[k].DestinationAddress && result[k].Amount == bridges[k].Amount)
@@ -104,7 +104,7 @@ package flows
 //@   loop 0 invariant forall(k, 0, rangeindex + 1, (len(bridges[k].Metadata) == 0 ==> bridgeExits[k].Metadata == nil) && (len(bridges[k].Metadata) > 0 ==> len(bridgeExits[k].Metadata) == 32 && off(bridgeExits[k].Metadata) == 0 && seq(bridgeExits[k].Metadata) == hb(keccak(catB(emptyB(), bytesOf(seq(bridges[k].Metadata), len(bridges[k].Metadata)))))))
 
 // ---- claim -> imported bridge exit (C03, C09, C19): fields preserved, metadata hashed, global index decoded
-//@ func (f *baseFlow) ConvertClaimToImportedBridgeExit
+//@ func (f *baseFlow) ConvertClaimToImportedBridgeExit (f, claim)
 //@   props C03 C09 C19
 //@   requires claim.GlobalIndex != nil
 //@   ensures[ok] result1 == nil && result0 != nil && result0.BridgeExit != nil && result0.BridgeExit.TokenInfo != nil && result0.GlobalIndex != nil
@@ -120,7 +120,7 @@ package flows
 //@ interface github.com/agglayer/aggkit/aggsender/types.BridgeQuerier.OriginNetwork (self)
 //@   modifies nothing
 
-//@ func (f *baseFlow) getNewLocalExitRoot
+//@ func (f *baseFlow) getNewLocalExitRoot (f, ctx, certParams, previousLER)
 //@   props C03
 //@   requires f != nil && f.l2BridgeQuerier != nil && certParams != nil
 //@   ensures[no-bridges-keeps-root] len(certParams.Bridges) == 0 ==> result1 == nil && result0 == previousLER
@@ -139,7 +139,7 @@ package flows
 //@   ensures result2 != nil ==> result0 == nil
 //@   ensures result2 == nil ==> result0 != nil && result0.GlobalExitRoot == ger && result0.L1InfoTreeIndex == gerLeafIndex(ger) && result0.Timestamp == gerLeafTimestamp(ger) && result0.PreviousBlockHash == gerLeafPrevBlockHash(ger) && result1 == gerProofTo(ger, rootFromWhichToProve)
 
-//@ func (f *baseFlow) getImportedBridgeExits
+//@ func (f *baseFlow) getImportedBridgeExits (f, ctx, claims, rootFromWhichToProve)
 //@   props C03 C09
 //@   requires f != nil && f.log != nil && f.l1InfoTreeDataQuerier != nil
 //@   requires forall(k, 0, len(claims), claims[k].GlobalIndex != nil && claims[k].Amount != nil && 0 <= bigval(claims[k].Amount) && bigval(claims[k].Amount) < 115792089237316195423570985008687907853269984665640564039457584007913129639936)
@@ -158,7 +158,7 @@ package flows
 
 // ---- the certificate as built (C03, C02): every part comes from the contracted helper for it, wired to the right
 // field; nothing is stored or sent here
-//@ func (f *baseFlow) BuildCertificate
+//@ func (f *baseFlow) BuildCertificate (f, ctx, certParams, lastSentCertificate, allowEmptyCert)
 //@   props C03 C02
 //@   requires f != nil && f.log != nil && f.l1InfoTreeDataQuerier != nil && f.l2BridgeQuerier != nil && f.lerQuerier != nil && f.storage != nil && certParams != nil
 //@   requires lastSentCertificate != nil ==> lastSentCertificate.Height < 18446744073709551615
@@ -179,11 +179,11 @@ package flows
 //@   ensures[leaf-count] result1 == nil ==> result0.L1InfoTreeLeafCount == certParams.L1InfoTreeLeafCount
 
 // ---- global exit root of a claim (C09): GER = keccak(mainnet exit root ‖ rollup exit root), checked for every claim
-//@ func calculateGER
+//@ func calculateGER (mainnetExitRoot, rollupExitRoot)
 //@   props C09
 //@   ensures[ger] result == H(mainnetExitRoot, rollupExitRoot)
 
-//@ func (f *baseFlow) verifyClaimGERs
+//@ func (f *baseFlow) verifyClaimGERs (f, claims)
 //@   props C09
 //@   modifies nothing
 //@   ensures[all-consistent] result == nil ==> forall(k, 0, len(claims), claims[k].GlobalExitRoot == H(claims[k].MainnetExitRoot, claims[k].RollupExitRoot))
@@ -204,7 +204,7 @@ package flows
 //@ interface github.com/agglayer/go_signer/signer/types.Signer.PublicAddress (self)
 //@   modifies nothing
 
-//@ func (p *PPFlow) signCertificate
+//@ func (p *PPFlow) signCertificate (p, ctx, certificate)
 //@   props C10
 //@   requires p != nil && p.signer != nil && p.log != nil && certificate != nil
 //@   requires forall(k, 0, len(certificate.ImportedBridgeExits), certificate.ImportedBridgeExits[k] != nil && certificate.ImportedBridgeExits[k].GlobalIndex != nil)
@@ -230,7 +230,7 @@ package flows
 //@   modifies nothing
 //@   ensures result1 == nil ==> result0 == storedLastCert
 
-//@ func (f *baseFlow) GetCertificateBuildParamsInternal
+//@ func (f *baseFlow) GetCertificateBuildParamsInternal (f, ctx, certType)
 //@   props C02 C03 C17
 //@   requires f != nil && f.l2BridgeQuerier != nil && f.storage != nil && f.log != nil
 //@   requires storedLastCert != nil ==> (storedLastCert.RetryCount < 9223372036854775807 && storedLastCert.FromBlock <= storedLastCert.ToBlock)
@@ -248,7 +248,7 @@ package flows
 
 // gaps between the last settled range and the new one may only be empty of bridge events (and are refused outright
 // when the FEP configuration forbids gaps)
-//@ func (f *baseFlow) VerifyBlockRangeGaps
+//@ func (f *baseFlow) VerifyBlockRangeGaps (f, ctx, lastSentCertificate, newFromBlock, newToBlock)
 //@   props C02
 //@   requires f != nil && f.l2BridgeQuerier != nil && newFromBlock <= newToBlock
 //@   requires lastSentCertificate != nil ==> lastSentCertificate.FromBlock <= lastSentCertificate.ToBlock
@@ -258,7 +258,7 @@ package flows
 //@   ensures[gap-with-events-refused] (result == nil && lastSentCertificate != nil && lastSentCertificate.Status != agglayertypes.InError && lastSentCertificate.ToBlock + 1 < newFromBlock) ==> nBridgesOf(lastSentCertificate.ToBlock + 1, newFromBlock - 1) == 0 && nClaimsOf(lastSentCertificate.ToBlock + 1, newFromBlock - 1) == 0 && !f.cfg.RequireNoFEPBlockGap
 
 // the checks every flow applies to the parameters before building (C02, C09)
-//@ func (f *baseFlow) VerifyBuildParams
+//@ func (f *baseFlow) VerifyBuildParams (f, ctx, fullCert)
 //@   props C02 C09
 //@   requires f != nil && fullCert != nil
 //@   modifies nothing
@@ -283,7 +283,7 @@ package flows
 //@   ensures result2 != nil ==> result0 == nil && result1 == nil
 //@   ensures result2 == nil ==> result0 != nil && result1 != nil && result0.Index == result1.L1InfoTreeIndex && result0.Hash == l1RootHashAt(result1.L1InfoTreeIndex)
 
-//@ func (p *PPFlow) GetCertificateBuildParams
+//@ func (p *PPFlow) GetCertificateBuildParams (p, ctx)
 //@   props C02 C09 C17
 //@   requires p != nil && p.baseFlow != nil && p.log != nil && p.l1InfoTreeDataQuerier != nil && typeIs(p.baseFlow, *baseFlow) && cast(p.baseFlow, *baseFlow).l2BridgeQuerier != nil && cast(p.baseFlow, *baseFlow).storage != nil && cast(p.baseFlow, *baseFlow).log != nil
 //@   requires storedLastCert != nil ==> (storedLastCert.RetryCount < 9223372036854775807 && storedLastCert.FromBlock <= storedLastCert.ToBlock)
@@ -301,7 +301,7 @@ package flows
 // returned (new exit root, the chain of (global index ‖ exit leaf) chunks of the imported exits, the height, the
 // aggchain parameters), only the signature slot of the aggchain proof data is written, and a certificate whose
 // aggchain data is of another kind is refused before anything is signed
-//@ func (a *AggchainProverFlow) signCertificate
+//@ func (a *AggchainProverFlow) signCertificate (a, ctx, cert)
 //@   props C10
 //@   requires a != nil && a.certificateSigner != nil && a.log != nil && cert != nil
 //@   requires typeIs(cert.AggchainData, *agglayertypes.AggchainDataProof) ==> cast(cert.AggchainData, *agglayertypes.AggchainDataProof) != nil
@@ -318,7 +318,7 @@ package flows
 // building (C10, C03): the certificate comes from the base flow's builder (its proved contract), the aggchain data
 // and the custom chain data are copied from the prover's answer BEFORE signing, and nothing covered by the
 // commitment is written after the signer was called
-//@ func (a *AggchainProverFlow) BuildCertificate
+//@ func (a *AggchainProverFlow) BuildCertificate (a, ctx, buildParams)
 //@   props C10 C03
 //@   requires a != nil && a.certificateSigner != nil && a.log != nil && buildParams != nil && buildParams.AggchainProof != nil && buildParams.AggchainProof.SP1StarkProof != nil
 //@   requires a.baseFlow != nil && typeIs(a.baseFlow, *baseFlow) && cast(a.baseFlow, *baseFlow).log != nil && cast(a.baseFlow, *baseFlow).l1InfoTreeDataQuerier != nil && cast(a.baseFlow, *baseFlow).l2BridgeQuerier != nil && cast(a.baseFlow, *baseFlow).lerQuerier != nil && cast(a.baseFlow, *baseFlow).storage != nil
@@ -333,7 +333,7 @@ package flows
 //@   ensures[built-by-the-base-flow] result1 == nil ==> result0.L1InfoTreeLeafCount == buildParams.L1InfoTreeLeafCount && len(result0.BridgeExits) == len(buildParams.Bridges) && len(result0.ImportedBridgeExits) == len(buildParams.Claims) && ((len(buildParams.Bridges) > 0) ==> result0.NewLocalExitRoot == exitRootAt[buildParams.Bridges[len(buildParams.Bridges) - 1].DepositCount]) && ((len(buildParams.Bridges) == 0) ==> result0.NewLocalExitRoot == result0.PrevLocalExitRoot)
 
 // the PP flow builds with the same builder (empty certificates refused) and signs the PP commitment
-//@ func (p *PPFlow) BuildCertificate
+//@ func (p *PPFlow) BuildCertificate (p, ctx, buildParams)
 //@   props C10 C03
 //@   requires p != nil && p.signer != nil && p.log != nil && buildParams != nil
 //@   requires p.baseFlow != nil && typeIs(p.baseFlow, *baseFlow) && cast(p.baseFlow, *baseFlow).log != nil && cast(p.baseFlow, *baseFlow).l1InfoTreeDataQuerier != nil && cast(p.baseFlow, *baseFlow).l2BridgeQuerier != nil && cast(p.baseFlow, *baseFlow).lerQuerier != nil && cast(p.baseFlow, *baseFlow).storage != nil
@@ -349,7 +349,7 @@ package flows
 
 // ---- the FEP flow's block range (C02). The last proven block is the block before the range, but never below the
 // configured start block (blocks up to it were settled by the previous system)
-//@ func (f *baseFlow) StartL2Block
+//@ func (f *baseFlow) StartL2Block (f)
 //@   props C02
 //@   requires f != nil
 //@   modifies nothing
@@ -357,7 +357,7 @@ package flows
 //@ interface github.com/agglayer/aggkit/aggsender/types.AggsenderFlowBaser.StartL2Block (f)
 //@   sameas github.com/agglayer/aggkit/aggsender/flows.(*baseFlow).StartL2Block
 
-//@ func (a *AggchainProverFlow) getLastProvenBlock
+//@ func (a *AggchainProverFlow) getLastProvenBlock (a, fromBlock, lastCertificate)
 //@   props C02
 //@   requires a != nil && a.log != nil && a.baseFlow != nil && typeIs(a.baseFlow, *baseFlow) && cast(a.baseFlow, *baseFlow) != nil
 //@   modifies nothing
@@ -366,7 +366,7 @@ package flows
 
 // the prover may prove fewer blocks than requested: the parameters are then cut to the proven range by the proved
 // sub-range filter (same first block), and are untouched when the prover proved everything
-//@ func adjustBlockRange
+//@ func adjustBlockRange (buildParams, requestedToBlock, aggchainProverToBlock)
 //@   props C02 C17
 //@   requires buildParams != nil
 //@   ensures[all-proven-keeps-the-parameters] requestedToBlock == aggchainProverToBlock ==> result1 == nil && result0 == buildParams
@@ -405,7 +405,7 @@ package flows
 //@   sameas github.com/agglayer/aggkit/aggsender/flows.(*baseFlow).ConvertClaimToImportedBridgeExit
 
 // the imported exits handed to the prover: one per claim, in order, each with the claim's block number
-//@ func (a *AggchainProverFlow) getImportedBridgeExitsForProver
+//@ func (a *AggchainProverFlow) getImportedBridgeExitsForProver (a, claims)
 //@   props C09 C03
 //@   requires a != nil && a.baseFlow != nil && typeIs(a.baseFlow, *baseFlow)
 //@   requires forall(k, 0, len(claims), claims[k].GlobalIndex != nil)
@@ -417,7 +417,7 @@ package flows
 
 // one request per call, for exactly the block range asked for, against the finalized L1 info root that is returned,
 // and only after every claim was found to be at or below that root
-//@ func (a *AggchainProverFlow) GenerateAggchainProof
+//@ func (a *AggchainProverFlow) GenerateAggchainProof (a, ctx, lastProvenBlock, toBlock, certBuildParams)
 //@   props C09 C02
 //@   requires a != nil && a.log != nil && a.l1InfoTreeDataQuerier != nil && a.gerQuerier != nil && a.aggchainProofClient != nil && a.baseFlow != nil && typeIs(a.baseFlow, *baseFlow) && certBuildParams != nil
 //@   requires typeIs(a.l1InfoTreeDataQuerier, *query.L1InfoTreeDataQuerier) && cast(a.l1InfoTreeDataQuerier, *query.L1InfoTreeDataQuerier) != nil && cast(a.l1InfoTreeDataQuerier, *query.L1InfoTreeDataQuerier).l1InfoTreeSyncer != nil
@@ -436,7 +436,7 @@ package flows
 
 // verify, then ask the prover from the last proven block to the end of the range, then record the root the prover was
 // given as the root the claims will be proven against (with its leaf count), and cut the range to what was proven
-//@ func (a *AggchainProverFlow) verifyBuildParamsAndGenerateProof
+//@ func (a *AggchainProverFlow) verifyBuildParamsAndGenerateProof (a, ctx, buildParams)
 //@   props C02 C09
 //@   requires a != nil && a.log != nil && a.l1InfoTreeDataQuerier != nil && a.gerQuerier != nil && a.aggchainProofClient != nil && a.baseFlow != nil && typeIs(a.baseFlow, *baseFlow) && cast(a.baseFlow, *baseFlow) != nil && buildParams != nil
 //@   requires typeIs(a.l1InfoTreeDataQuerier, *query.L1InfoTreeDataQuerier) && cast(a.l1InfoTreeDataQuerier, *query.L1InfoTreeDataQuerier) != nil && cast(a.l1InfoTreeDataQuerier, *query.L1InfoTreeDataQuerier).l1InfoTreeSyncer != nil
@@ -467,7 +467,7 @@ package flows
 //@ interface github.com/agglayer/aggkit/aggsender/types.OptimisticModeQuerier.IsOptimisticModeOn (self)
 //@   modifies nothing
 
-//@ func (a *AggchainProverFlow) GetCertificateBuildParams
+//@ func (a *AggchainProverFlow) GetCertificateBuildParams (a, ctx)
 //@   props C02 C09
 //@   requires a != nil && a.log != nil && a.storage != nil && a.optimisticModeQuerier != nil && a.l2BridgeQuerier != nil && a.l1InfoTreeDataQuerier != nil && a.gerQuerier != nil && a.aggchainProofClient != nil && a.optimisticSigner != nil
 //@   requires a.baseFlow != nil && typeIs(a.baseFlow, *baseFlow) && cast(a.baseFlow, *baseFlow) != nil && cast(a.baseFlow, *baseFlow).l2BridgeQuerier != nil && cast(a.baseFlow, *baseFlow).storage != nil && cast(a.baseFlow, *baseFlow).log != nil
@@ -492,7 +492,7 @@ package flows
 //@   modifies nothing
 //@ interface github.com/agglayer/aggkit/aggsender/types.AggsenderFlowBaser.VerifyBlockRangeGaps (f, ctx, lastSentCertificate, newFromBlock, newToBlock)
 //@   sameas github.com/agglayer/aggkit/aggsender/flows.(*baseFlow).VerifyBlockRangeGaps
-//@ func (a *AggchainProverFlow) CheckInitialStatus
+//@ func (a *AggchainProverFlow) CheckInitialStatus (a, ctx)
 //@   props C02
 //@   requires a != nil && a.storage != nil && a.l2BridgeQuerier != nil && a.baseFlow != nil && typeIs(a.baseFlow, *baseFlow) && cast(a.baseFlow, *baseFlow) != nil && cast(a.baseFlow, *baseFlow).l2BridgeQuerier != nil
 //@   requires storedLastCert != nil ==> storedLastCert.FromBlock <= storedLastCert.ToBlock
@@ -501,7 +501,7 @@ package flows
 
 // the exit root the optimistic proof request is signed over (C03): the same root the certificate will name - the synced
 // exit-tree root at the deposit count of the last bridge of the range, or the previous root when there is none
-//@ func (f *baseFlow) GetNewLocalExitRoot
+//@ func (f *baseFlow) GetNewLocalExitRoot (f, ctx, certParams)
 //@   props C03
 //@   requires f != nil && f.l2BridgeQuerier != nil && f.lerQuerier != nil && f.storage != nil
 //@   requires (certParams != nil && certParams.LastSentCertificate != nil) ==> certParams.LastSentCertificate.Height < 18446744073709551615
